@@ -280,6 +280,11 @@ class InstAnalysis:
                     # value itself carries -- for a direct Fn*::call* that is argument 0
                     c0 = callee_of(t)
                     if c0 and c0.get('trait') in ('std::ops::FnOnce', 'std::ops::FnMut', 'std::ops::Fn') and args:
+                        pj = self._param_holding(args[0])
+                        if pj is not None:
+                            # capture k of the closure held by parameter pj: resolved where the closure is built
+                            out.add((('p', pj), ('#c%d' % k,) + path))
+                            continue
                         for (r2, p2) in self.val_of_operand(args[0]):
                             out.add((r2, p2))
                     else:
@@ -294,10 +299,70 @@ class InstAnalysis:
                 continue
             a = args[j]
             aty = tys[j]
+            if path and isinstance(path[0], str) and path[0].startswith('#c'):
+                # a capture of the closure passed as this argument
+                kk = int(path[0][2:])
+                ops = self._closure_ops_of_arg(a)
+                if ops is not None and kk < len(ops):
+                    for (r2, p2) in self.val_of_operand(ops[kk]):
+                        out.add((r2, p2 + path[1:]))
+                    continue
+                pj = self._param_holding(a)
+                if pj is not None:
+                    out.add((('p', pj), path))
+                    continue
+                if self.is_closure and op_place(a) is not None and op_place(a)['l'] == 1:
+                    c = self._capture_loc(op_place(a))
+                    if c is not None:
+                        for (r2, p2) in c:
+                            out.add((r2, p2 + path))
+                        continue
+                for (r2, p2) in self.val_of_operand(a):
+                    out.add((r2, p2))
+                continue
             direct = aty.get('ref') is not None
             for (r2, p2) in self.val_of_operand(a):
                 out.add((r2, p2 + path if direct else p2))
         return out
+
+    def _param_holding(self, o):
+        """the parameter whose (moved / reborrowed) value operand o is, if any"""
+        pl = op_place(o)
+        if pl is None:
+            return None
+        cur = pl['l']
+        for _ in range(8):
+            if 1 <= cur <= self.body.argc:
+                return None if (self.is_closure and cur == 1) else cur
+            defs = self.body.defs.get(cur, [])
+            if len(defs) != 1 or defs[0][2] != 'assign':
+                return None
+            rv = defs[0][3]['rv']
+            if rv['k'] == 'use':
+                p2 = op_place(rv['op'])
+                if p2 is None or p2['p']:
+                    return None
+                cur = p2['l']
+            elif rv['k'] == 'ref' and all(e['k'] == 'deref' for e in rv['pl']['p']):
+                cur = rv['pl']['l']
+            else:
+                return None
+        return None
+
+    def _closure_ops_of_arg(self, o):
+        from facts import resolve_ref, value_def
+        l = op_local(o)
+        if l is None:
+            return None
+        cand = [l]
+        pl = resolve_ref(self.body, l)
+        if pl is not None and not pl['p']:
+            cand.append(pl['l'])
+        for c in cand:
+            vd = value_def(self.body, c)
+            if vd and vd[0] == 'assign' and vd[1]['rv']['k'] == 'aggr' and vd[1]['rv'].get('ak') == 'closure':
+                return vd[1]['rv']['ops']
+        return None
 
     def block_events(self, bb):
         """ordered events of a block: list of dicts
